@@ -854,6 +854,51 @@ package router
 //@   callsite mustHaveRespB?: [C03:fallback-answer] arg2 == dnsmsg.RCodeRefused && arg3 == false && arg4 == 65535
 //@   callsite Write?: [C03:the-packed-response-is-the-body] arg1 == gB && len(arg1) >= 12
 
+// gnetServer.OnOpen (gnet TCP listener): every new connection is charged 3 to its remote address; it stays open
+// exactly when the limiter admitted it.
+//@ func (e *gnetServer) OnOpen(c gnet.Conn) (out []byte, action gnet.Action)
+//@   props C15
+//@   requires e != nil && routerReady(e.r) && e.logger != nil && c != nil
+//@   ghost gRemote net.Addr = nil
+//@   ghost nConv int = 0
+//@   ghost gAP netip.AddrPort = nil
+//@   ghost gAdm error = nil
+//@   ghost nAsk int = 0
+//@   aftercall RemoteAddr: gRemote = ret0
+//@   aftercall netAddr2NetipAddr: gAP = (nConv == 0 ? ret0 : gAP)
+//@   aftercall netAddr2NetipAddr: nConv = nConv + 1
+//@   oncall limiterAllowN: nAsk = nAsk + 1
+//@   aftercall limiterAllowN: gAdm = ret0
+//@   modifies *
+//@   ensures [C15:refused-connection-is-closed] nAsk == 1 && (action == gnet.Close) == (gAdm != nil) && (gAdm == nil ==> action == gnet.None)
+//@   callsite RemoteAddr: [C15:address-of-this-connection] arg0 == c
+//@   callsite netAddr2NetipAddr: [C15:connection-cost-charged-to-the-client] nConv == 0 ==> arg0 == gRemote
+//@   callsite limiterAllowN: [C15:connection-cost-charged-to-the-client] arg0 == e.r && nConv >= 1 && arg1 == gAP.ip && arg2 == 3
+
+// quicServer.handleConn (stream accept loop of one DoQ connection): every stream (one query) is charged 2 to the
+// connection's remote address; a refused stream is closed and never handled.
+//@ func (s *quicServer) handleConn(c quic.Connection) (err error)
+//@   props C15
+//@   requires s != nil && routerReady(s.r) && s.logger != nil && c != nil
+//@   noterm
+//@   ghost gRemote net.Addr = nil
+//@   ghost nRemote int = 0
+//@   ghost gAP netip.AddrPort = nil
+//@   ghost gAdm error = nil
+//@   ghost nAsk int = 0
+//@   oncall RemoteAddr?: nRemote = nRemote + 1
+//@   aftercall RemoteAddr?: gRemote = ret0
+//@   aftercall netAddr2NetipAddr: gAP = ((nRemote >= 1 && arg0 == gRemote) ? ret0 : gAP)
+//@   aftercall AcceptStream: nAsk = 0
+//@   oncall limiterAllowN: nAsk = nAsk + 1
+//@   aftercall limiterAllowN: gAdm = ret0
+//@   modifies *
+//@   callsite limiterAllowN: [C15:query-cost-charged-to-the-client] arg0 == s.r && nRemote >= 1 && arg1 == gAP.ip && arg2 == 2
+//@   callsite go: [C15:refused-query-not-handled] nAsk == 1 && gAdm == nil
+//@   loop 1:
+//@     modifies *
+//@     invariant s != nil && routerReady(s.r) && s.logger != nil && c != nil && nRemote >= 1 && remoteAddr == gAP
+
 // tcpServer.run (accept loop, TCP and DoT): every accepted connection is charged - 15 for TLS, 3 for plain TCP -
 // to its remote address; a refused connection is closed and never handled.
 //@ func (s *tcpServer) run() (err error)
@@ -944,7 +989,7 @@ package router
 // closed and never handled.
 //@ func (s *quicServer) run() (err error)
 //@   props C15
-//@   requires s != nil && s.r != nil && s.l != nil && s.logger != nil && limOK(s.r.limiter)
+//@   requires s != nil && routerReady(s.r) && s.l != nil && s.logger != nil
 //@   noterm
 //@   ghost gRemote net.Addr = nil
 //@   ghost nRemote int = 0
@@ -957,4 +1002,9 @@ package router
 //@   callsite go: [C15:refused-connection-not-served] gAdm == nil
 //@   loop 1:
 //@     modifies *
-//@     invariant s != nil && s.r != nil && s.l != nil && s.logger != nil && r == s.r && nRemote >= 0 && limOK(r.limiter)
+//@     invariant s != nil && routerReady(s.r) && s.l != nil && s.logger != nil && r == s.r && nRemote >= 0
+//@ closure quicServer.run$1
+//@   props C15
+//@   requires s != nil && routerReady(s.r) && s.logger != nil && c != nil
+//@   modifies *
+//@   callsite handleConn: [C15:the-admitted-connection] arg0 == s && arg1 == c
